@@ -62,6 +62,9 @@ func (w *Proxy) checkC09Quiescent() {
 		}
 		// every client the pool counts is an open connection or a connect in progress
 		// (the HTTP/1 pool counts a connect in progress, the ping-pong pool counts it once established)
+		if w.P.Auto && len(w.P.Protos) > 1 {
+			continue // the host is dialled by one pool per protocol: the network's count is not this pool's
+		}
 		if int(total) < live || int(total) > live+w.N.PendingDials(a) {
 			s.Violate("C09", "total_vs_network", "pool %s: total client count %d, but the network has %d live connection(s) and %d connect(s) in progress (idle=%d)", a, total, live, w.N.PendingDials(a), idle)
 		}
@@ -252,6 +255,9 @@ func (w *Proxy) checkC03() {
 			continue // the client could no longer parse what it received after an upstream's malformed reply was forwarded to it
 		}
 		n := len(r.Replies)
+		if n == 0 && tainted(r) && w.oddFrameFor(r) {
+			continue // the upstream's deliberately corrupted reply was forwarded; the client cannot read it as a reply
+		}
 		switch {
 		case r.Oneway:
 			if n > 0 {
@@ -462,6 +468,12 @@ func (w *Proxy) fromGarbage(fr []byte) bool {
 		if len(fr) > 0 && bytes.Contains(g.Payload, fr) {
 			return true
 		}
+		// ... with the request id rewritten by MOSN (bolt: bytes 5..9, boltv2: 6..10, dubbo: 4..12)
+		for _, k := range []int{9, 10, 12} {
+			if len(fr) > k+8 && bytes.Contains(g.Payload, fr[k:]) {
+				return true
+			}
+		}
 	}
 	return false
 }
@@ -491,6 +503,15 @@ func (w *Proxy) clientTainted(name string) bool {
 }
 
 // clientBlind: a tainted client whose own parser gave up.
+func (w *Proxy) oddFrameFor(r *peers.ReqRec) bool {
+	for _, c := range w.clients {
+		if c.Name == r.Client && c.OddFrames[r.ID] > 0 {
+			return true
+		}
+	}
+	return false
+}
+
 func (w *Proxy) clientBlind(name string) bool {
 	if !w.clientTainted(name) {
 		return false
